@@ -42,7 +42,8 @@ pub fn run(args: &Args, tier: &str, seed: u64) -> Report {
                         attrs.insert("attributes-charset".to_string(), MVal::Text { tag: 0x47, s: "utf-8".into() });
                         attrs.insert("attributes-natural-language".to_string(), MVal::Text { tag: 0x48, s: "en".into() });
                         let req = mirror::to_ipp(&Model { version: 0x0101, code: 0x000b, id: n, groups: vec![MGroup { tag: 1, attrs }], data: vec![] });
-                        let ccfg = ClientCfg { timeout_ms: Some(30_000), ..ClientCfg::default() };
+                        // every other cell through the plain constructors (nothing configured)
+                        let ccfg = if n % 2 == 0 { ClientCfg::default() } else { ClientCfg { timeout_ms: Some(30_000), ..ClientCfg::default() } };
                         let result = match kind {
                             Kind::Blocking => send_blocking(&blocking_client(&uri, &ccfg), req),
                             Kind::Async => send_async(&rt, &async_client(&uri, &ccfg), req),
